@@ -6,4 +6,7 @@ CONSTANTS
   ClChk = TRUE
   Threaded = TRUE
   FinalValid = FALSE
+  QCap = 0
+  Gating = FALSE
+  QfRet = TRUE
 CHECK_DEADLOCK FALSE
